@@ -14,6 +14,15 @@ package main
 // which must be answered within 4 s.
 //
 // observation: st=<status of the raw request> fu=<status of the follow-up | hang> fu2=<status of a release | hang | ->
+//
+//   http case hist <steps> -
+//
+// a short history of requests for the probe subscriber in a fresh world, one letter per request, each under a 4 s deadline:
+//   c valid session create      b create that OpenCDR refuses (mcc "20")     n create without nfConsumerIdentification
+//   o one-time event            u update of the newest open session (of an unknown reference when there is none)
+//   r release of the newest open session (idem)     x update naming an unknown reference     R recharge <subscriber>_1
+// then the follow-up: a valid create, an update and a release of that session (4 s each).
+// observation: st=<worst of the history: hang | 5xx | last status> fu=<create/update of the follow-up> fu2=<its release> fu3=- hist=<s1/s2/...>
 
 import (
 	"bufio"
@@ -253,8 +262,131 @@ func runHTTP(line string, t []string) string {
 	return r
 }
 
+func histCase(steps string) string {
+	runChf("chf reset", []string{"reset"})
+	store.set(probeSupi, 1, "100000", "2")
+	chfSupis[probeSupi] = true
+	var open []string
+	seq := 0
+	do := func(method, path string, body []byte) (int, string) {
+		ch := make(chan *httptest.ResponseRecorder, 1)
+		go func() {
+			defer func() {
+				if r := recover(); r != nil {
+					w := httptest.NewRecorder()
+					w.Code = 599
+					ch <- w
+				}
+			}()
+			ch <- doHTTP(method, path, body)
+		}()
+		select {
+		case w := <-ch:
+			loc := ""
+			if l := w.Header().Get("Location"); l != "" {
+				if i := strings.LastIndex(l, "/chargingdata/"); i >= 0 {
+					loc = l[i+len("/chargingdata/"):]
+				}
+			}
+			return w.Code, loc
+		case <-time.After(4 * time.Second):
+			return 0, ""
+		}
+	}
+	js := func(f func(m map[string]interface{})) []byte {
+		seq++
+		m := fullRequest(probeSupi, seq)
+		if f != nil {
+			f(m)
+		}
+		b, _ := json.Marshal(m)
+		return b
+	}
+	newest := func() string {
+		if len(open) == 0 {
+			return "nosuch-reference"
+		}
+		return open[len(open)-1]
+	}
+	var sts []string
+	worst := ""
+	note := func(code int) bool {
+		if code == 0 {
+			sts = append(sts, "hang")
+			worst = "hang"
+			return false
+		}
+		sts = append(sts, fmt.Sprint(code))
+		if code >= 500 && worst == "" {
+			worst = fmt.Sprint(code)
+		}
+		return true
+	}
+	for _, c := range steps {
+		code, loc := 0, ""
+		switch c {
+		case 'c':
+			code, loc = do("POST", ccPrefix+"/chargingdata", js(nil))
+			if code == 201 && loc != "" {
+				open = append(open, loc)
+			}
+		case 'b':
+			code, _ = do("POST", ccPrefix+"/chargingdata", js(func(m map[string]interface{}) {
+				m["nfConsumerIdentification"].(map[string]interface{})["nFPLMNID"] = map[string]interface{}{"mcc": "20", "mnc": "93"}
+			}))
+		case 'n':
+			code, _ = do("POST", ccPrefix+"/chargingdata", js(func(m map[string]interface{}) { delete(m, "nfConsumerIdentification") }))
+		case 'o':
+			code, _ = do("POST", ccPrefix+"/chargingdata", js(func(m map[string]interface{}) { m["oneTimeEvent"] = true }))
+		case 'u':
+			code, _ = do("POST", ccPrefix+"/chargingdata/"+escapePath(newest())+"/update", js(nil))
+		case 'x':
+			code, _ = do("POST", ccPrefix+"/chargingdata/nosuch-reference/update", js(nil))
+		case 'r':
+			code, _ = do("POST", ccPrefix+"/chargingdata/"+escapePath(newest())+"/release", js(nil))
+			if code == 204 && len(open) > 0 {
+				open = open[:len(open)-1]
+			}
+		case 'R':
+			code, _ = do("PUT", ccPrefix+"/recharging/"+escapePath(probeSupi+"_1"), nil)
+		default:
+			return "bad-op"
+		}
+		if !note(code) {
+			break
+		}
+	}
+	st := worst
+	if st == "" && len(sts) > 0 {
+		st = sts[len(sts)-1]
+	}
+	if st == "" {
+		st = "204"
+	}
+	// follow-up: the subscriber is not blocked
+	fu, fu2 := "hang", "-"
+	if code, loc := do("POST", ccPrefix+"/chargingdata", js(nil)); code != 0 {
+		fu = fmt.Sprint(code)
+		if code == 201 {
+			if c2, _ := do("POST", ccPrefix+"/chargingdata/"+escapePath(loc)+"/update", js(nil)); c2 == 0 {
+				fu = "hang"
+			} else {
+				fu = fmt.Sprint(c2)
+				fu2 = "hang"
+				if c3, _ := do("POST", ccPrefix+"/chargingdata/"+escapePath(loc)+"/release", js(nil)); c3 != 0 {
+					fu2 = fmt.Sprint(c3)
+				}
+			}
+		}
+	}
+	return fmt.Sprintf("st=%s fu=%s fu2=%s fu3=- hist=%s", st, fu, fu2, strings.Join(sts, "/"))
+}
+
 func runHTTP1(t []string) string {
 	kind := t[1]
+	if kind == "hist" {
+		return histCase(t[2])
+	}
 	var body []byte
 	if t[2] != "-" {
 		b, err := hex.DecodeString(t[2])
@@ -516,6 +648,38 @@ func genHTTP(o genOpts, w *bufio.Writer) {
 	// 6b. recharge notifications to a consumer that answers late / sends an update before it answers
 	emit("notifyslow", nil, "-")
 	emit("notifyreenter", nil, "-")
+	// 8. "any order of requests": every history of up to 3 requests over {valid create, refused create, one-time event, update,
+	//    release, update of an unknown reference, recharge} (thorough: up to 4), and longer random ones, each followed by a valid
+	//    create / update / release of the same subscriber
+	alphabet := "cbouxrR"
+	var hists []string
+	var grow func(prefix string, left int)
+	grow = func(prefix string, left int) {
+		if prefix != "" {
+			hists = append(hists, prefix)
+		}
+		if left == 0 {
+			return
+		}
+		for _, c := range alphabet {
+			grow(prefix+string(c), left-1)
+		}
+	}
+	maxLen, nLong := 3, 120
+	if o.tier == "thorough" {
+		maxLen, nLong = 4, 1500
+	}
+	grow("", maxLen)
+	for i := 0; i < nLong; i++ {
+		h := ""
+		for j, k := 0, maxLen+1+r.intn(4); j < k; j++ {
+			h += string("cbouxrRn"[r.intn(8)])
+		}
+		hists = append(hists, h)
+	}
+	for _, h := range hists {
+		fmt.Fprintf(w, "http case hist %s -\n", h)
+	}
 	// 7. random multi-member removals
 	for i := 0; i < o.n; i++ {
 		c := deepCopy(base)
